@@ -16,6 +16,10 @@ CLAIMED = {
             "explicit-state exploration of all do/undo/redo/selective/drop histories to depth 4 (5-6 thorough) on the real History, against a dictionary reference model",
             "A state is the event history reaching it; every enabled sequence of do (18 change shapes), undo, redo, undo(change=i), redo(change=i), undo(drop=True) for history limits {0,1,2,32} is replayed on a fresh real Project and its last step is compared with a reference model (tree, both lists, returned changes, limit, refusal on empty) and with the property's declarative oracle (base snapshot + remaining changes replayed).",
             "reference model and dependency closure written independently (dict + lists); bounded depth/alphabet; every transition is an implementation step, so traces_validated_against_impl = sequences explored", "3/C11"),
+    "C18": ("fault_enumeration",
+            "exhaustive crash-point enumeration: every program-order prefix (byte-granular) of the save's real system-call effect log, each reopened with the real code",
+            "For each history scenario the real Project.close()/sync() runs once under strace; the ordered effects on the rope folder (open/truncate, write, rename, unlink, tracked per inode) are the ground truth. Every prefix of that list, with every byte prefix of every write, is materialised and the project is reopened: opening, project.history, the object db and module analysis must not raise and history/objectdb must each equal the complete old or the complete new version (or be empty).",
+            "process-death crash model (program-order prefixes of what reached the OS); strace log is trusted and the harness exits 2 if replaying all effects does not reproduce the real final rope folder", "3/C18"),
 }
 
 PENDING_REASON = "check not built yet in this session (see DESIGN.md section 8 build order); nothing is claimed for it"
